@@ -490,6 +490,23 @@ def check_hkdf_small(ck_ob, mod, label, thorough=False):
 
 # HKDF (RFC 5869 over TinyJAMBU-HMAC, 32-byte blocks, 8-bit block counter)
 
+def _buf_arg_ok(p, f, got_ptr, got_len, ptrname, lenname):
+    """the (pointer, length) pair handed on is the caller's - or, on a path where the caller's pointer is null or its length is 0, any
+    pointer with that length: a zero-length buffer is never read (the contract: a pointer may be null only with length 0)"""
+    P_, L_ = repr(Lf.s(irx.argsym(f, f.param_index(ptrname)))), repr(Lf.s(irx.argsym(f, f.param_index(lenname))))
+    if (got_ptr, got_len) == (P_, L_):
+        return True
+    empty = False
+    for c_ in getattr(p, "conds", []):
+        if len(c_) == 3 and repr(c_[1]) in (P_, L_) and ((c_[0] == "ne" and c_[2] is False) or (c_[0] == "eq" and c_[2] is True)):
+            empty = True
+    if empty and got_len not in (L_, "0"):
+        # (a substitute of another length for the empty buffer - e.g. 32 zero bytes for an absent salt: equal to the empty key only by
+        # HMAC's zero padding, a value argument this structural rule does not make)
+        raise Broken("%s: on a path where %s is null or %s is 0 a buffer of length %s is handed on instead: not decided by this rule" % (f.name, ptrname, lenname, got_len))
+    return empty
+
+
 def check_hkdf(ck_ob, mod, label):
     ST = ("arg", 0)
     fld = {m["name"]: m for m in mod.composites["tinyjambu_hkdf_state_p_t"]["members"]}
@@ -511,6 +528,11 @@ def check_hkdf(ck_ob, mod, label):
     ps = ex.run()
     oli = ("n", f.param_index("outlen"))
     seen = set()
+    for J in f.insts:
+        if J.op not in ("icmp", "call", "phi", "select") and not J.is_dbg() and any(isinstance(o, (list, tuple)) and tuple(o) == ("a", f.param_index("outlen")) for o in J.ops):
+            # (a block count outlen / 32 + ..., compared with 255: the classes of outlen are then not intervals read off the path conditions)
+            raise Broken("tinyjambu_hkdf (one-shot): the length cap is not a plain comparison of outlen with a constant (%s of outlen at %s): the classes of outlen are not decided by this rule"
+                         % (J.op, relpath(J.where)))
     for p in ps:
         ev = calls(p)
         rng = ex._range(p, Lf.s(oli))
@@ -530,8 +552,13 @@ def check_hkdf(ck_ob, mod, label):
             if nm_[:2] != ["tinyjambu_hkdf_extract", "tinyjambu_hkdf_expand"] or len(nm_) != 3 or nm_[2] not in ("tinyjambu_clean", "tinyjambu_hkdf_free"):
                 raise Broken("tinyjambu_hkdf (one-shot) is not written as extract; expand; wipe on a local state (calls %s): this shape is not analysed" % nm_)
             okseq = st.startswith("alloca") \
-                and ev[0][3] == (st, A("key"), A("keylen"), A("salt"), A("saltlen")) and ev[1][3] == (st, A("info"), A("infolen"), A("out"), A("outlen")) \
+                and len(ev[0][3]) == 5 and len(ev[1][3]) == 5 and ev[0][3][0] == st and ev[1][3][0] == st \
+                and _buf_arg_ok(p, f, ev[0][3][1], ev[0][3][2], "key", "keylen") and _buf_arg_ok(p, f, ev[0][3][3], ev[0][3][4], "salt", "saltlen") \
+                and _buf_arg_ok(p, f, ev[1][3][1], ev[1][3][2], "info", "infolen") and ev[1][3][3:] == (A("out"), A("outlen")) \
                 and (ev[2][3] == (st, str(mod.typedef_size("tinyjambu_hkdf_state_t"))) or (nm_[2] == "tinyjambu_hkdf_free" and ev[2][3] == (st,)))
+            if okseq and rc is None:
+                # (e.g. the result of the expand call handed on: 0 only by what expand does for a fresh state and outlen <= 8160)
+                raise Broken("tinyjambu_hkdf (one-shot): the value returned on the accepting path is not a constant of this function: not decided by this rule")
             ck_ob(okseq and rng[1] == 8160 and rc == 0, "CAP", f.name, "accept-up-to-8160[%s]" % label, "outlen <= 8160: extract(key,salt); expand(info,out,outlen); wipe; returns 0",
                   "accepting class is outlen <= %s with events %s returning %s" % (rng[1], [(e[2], e[3]) for e in ev], rc), w0)
     if seen != {"refuse", "ok"}:
@@ -543,30 +570,33 @@ def check_hkdf(ck_ob, mod, label):
     w0 = relpath("%s:%d" % (f.file, f.line))
     ex = irx.Exec(f, Handler(), havoc="auto", auto=True, int_cells=icells)
     ps = ex.run()
-    ok = len(ps) == 1 and ps[0].end[0] == "ret"
-    if ok:
-        p = ps[0]
+    if not ps or len(ps) > 6 or any(p_.end[0] != "ret" for p_ in ps):
+        raise Broken("tinyjambu_hkdf_extract is not a straight path (or a few of them): unrecognised shape")
+    no_data_branches(f, ps)
+    for pi_, p in enumerate(ps):
+        # (several paths: classes the code distinguishes - a null salt pointer, a zero length; every one of them must be the documented HMAC)
+        lab_ = label if pi_ == 0 else "%s/path-class-%d-of-%d" % (label, pi_ + 1, len(ps))
         ev = calls(p)
         A = lambda nm: repr(Lf.s(irx.argsym(f, f.param_index(nm))))
         h = ev[0][3][0] if ev else ""
         nm_ = [e[2] for e in ev]
         PRKP = repr(Lf({ST: 1, 1: PRK}) if PRK else Lf.s(ST))
+        B_ = lambda e, i, pn, ln: len(e[3]) > i + 1 and _buf_arg_ok(p, f, e[3][i], e[3][i + 1], pn, ln)
         if nm_ == ["tinyjambu_hmac"]:
             # PRK = the one-shot HMAC (decided as init; update; finalize; wipe under C12) with key = salt, message = IKM
-            ok = ev[0][3] == (PRKP, A("salt"), A("saltlen"), A("key"), A("keylen"))
+            ok = len(ev[0][3]) == 5 and ev[0][3][0] == PRKP and B_(ev[0], 1, "salt", "saltlen") and B_(ev[0], 3, "key", "keylen")
         elif nm_ == ["tinyjambu_hmac_init", "tinyjambu_hmac_update", "tinyjambu_hmac_finalize", "tinyjambu_hmac_free"]:
             ok = h.startswith("alloca") \
-                and ev[0][3] == (h, A("salt"), A("saltlen")) and ev[1][3] == (h, A("key"), A("keylen")) \
-                and ev[2][3] == (h, A("salt"), A("saltlen"), PRKP) and ev[3][3] == (h,)
+                and len(ev[0][3]) == 3 and ev[0][3][0] == h and B_(ev[0], 1, "salt", "saltlen") \
+                and len(ev[1][3]) == 3 and ev[1][3][0] == h and B_(ev[1], 1, "key", "keylen") \
+                and len(ev[2][3]) == 4 and ev[2][3][0] == h and B_(ev[2], 1, "salt", "saltlen") and ev[2][3][3] == PRKP and ev[3][3] == (h,)
         else:
             raise Broken("tinyjambu_hkdf_extract is neither the one-shot HMAC nor init; update; finalize; free on a local state (calls %s): this shape is not analysed" % nm_)
         okc = p.lfmem.get((ST, CNT, 1)) == Lf.c(1) and p.lfmem.get((ST, POSN, 1)) == Lf.c(32)
-        ck_ob(ok, "SEQ", f.name, "extract[%s]" % label, "PRK = HMAC(salt, IKM): init(salt); update(key); finalize(salt -> prk); free",
+        ck_ob(ok, "SEQ", f.name, "extract[%s]" % lab_, "PRK = HMAC(salt, IKM): init(salt); update(key); finalize(salt -> prk); free",
               "extract is %s" % [(e[2], e[3]) for e in ev], w0)
-        ck_ob(okc, "SEQ", f.name, "extract-counters[%s]" % label, "block counter = 1, nothing buffered (position 32)",
+        ck_ob(okc, "SEQ", f.name, "extract-counters[%s]" % lab_, "block counter = 1, nothing buffered (position 32)",
               "after extract counter=%s position=%s (expected 1 and 32)" % (p.lfmem.get((ST, CNT, 1)), p.lfmem.get((ST, POSN, 1))), w0)
-    else:
-        raise Broken("tinyjambu_hkdf_extract is not a straight path: unrecognised shape")
     n += 2
     # ---- expand
     f = mod.fn("tinyjambu_hkdf_expand")
@@ -1471,6 +1501,8 @@ def check_prng(ck_ob, mod, label, generate=True):
     f, ex, ps, c = mk("tinyjambu_prng_generate")
     if not f.loops:
         raise Broken("tinyjambu_prng_generate has no loop")
+    if not f.calls("tinyjambu_prng_reseed") and any(c_.callee is None and not c_.is_dbg() for c_ in f.calls()):
+        raise Broken("tinyjambu_prng_generate makes an entropy request itself instead of calling tinyjambu_prng_reseed (the reseed in a file-local helper?): the reseed sites are not recognised")
     seen = set()
     site_classes = {}
     import random
